@@ -43,7 +43,7 @@ def rtd_case(draw):
     return {'kind': 'rtd', 'R0': draw(st.one_of(st.sampled_from([100.0, 1000.0, 500.0]), _f(10.0, 2000.0))),
             'A': A0 * draw(_f(0.95, 1.05)), 'B': B0 * draw(_f(0.95, 1.05)), 'C': C0 * draw(_f(0.95, 1.05)),
             'I': draw(_f(1e-4, 1e-2)), 'wires': k, 'lead': draw(st.one_of(st.just(0.0), _f(0.0, 10.0))), 'T': temps,
-            'via_file': draw(st.booleans()),
+            'via_file': draw(st.booleans()), 'chain': [draw(st.integers(0, 3)), draw(st.sampled_from([2.0, 0.5, -4.0, 1024.0])), draw(st.sampled_from([0.0, 0.0, 1.0]))],
             # a second sensor (different Callendar-Van Dusen coefficients) measured with the same circuit: its scaling is
             # evaluated on the SAME voltages right after the first one
             'alt': [A0 * draw(_f(0.95, 1.05)), B0 * draw(_f(0.95, 1.05)), C0 * draw(_f(0.95, 1.05))]}
@@ -71,7 +71,7 @@ def thermistor_case(draw):
             'A': draw(_f(1.0e-3, 1.5e-3)), 'B': draw(_f(2.0e-4, 3.0e-4)), 'C': draw(_f(5e-8, 2e-7)),
             'offset': draw(st.sampled_from([0.0, 273.15, 25.0])),
             'lnR': draw(st.lists(_f(math.log(30.0), math.log(3e5)), min_size=1, max_size=6)),
-            'via_file': draw(st.booleans())}
+            'via_file': draw(st.booleans()), 'chain': [draw(st.integers(0, 3)), draw(st.sampled_from([2.0, 0.5, -4.0, 1024.0])), draw(st.sampled_from([0.0, 0.0, 1.0]))]}
 
 
 def thermistor_forward(c, lnR):
@@ -98,7 +98,7 @@ def strain_case(draw):
             'Vinit': draw(st.one_of(st.just(0.0), _f(-1e-3, 1e-3))),
             'eps': draw(st.lists(st.one_of(st.sampled_from([0.0, 1e-6, -1e-6, 5e-3, -5e-3]), _f(-5e-3, 5e-3)),
                                  min_size=1, max_size=6)),
-            'via_file': draw(st.booleans()), 'raw32': draw(st.integers(0, 5)) == 0}
+            'via_file': draw(st.booleans()), 'raw32': draw(st.integers(0, 5)) == 0, 'chain': [draw(st.integers(0, 3)), draw(st.sampled_from([2.0, 0.5, -4.0, 1024.0])), draw(st.sampled_from([0.0, 0.0, 1.0]))]}
 
 
 def strain_forward(c, eps):
@@ -187,8 +187,12 @@ def run_scaling(c, volts):
         return out
     from nptdms import TdmsFile
     p = make_path('g', 'c')
+    # Linear scales in front of the sensor scale (input source = a scale index instead of the raw data)
+    shape, m, c0 = c.get('chain') or [0, 2.0, 0.0]
+    graph, raw_for = SC.chain_before(_graph(c)[0], shape, m, c0)
+    v = np.array(raw_for(v), dtype=np.float64)
     seg = {'be': False, 'interleaved': False,
-           'entries': [{'path': p, 'hdr': 'full', 'type': 'f64', 'n': len(v), 'props': SC.graph_props(_graph(c), True)}],
+           'entries': [{'path': p, 'hdr': 'full', 'type': 'f64', 'n': len(v), 'props': SC.graph_props(graph, True)}],
            'active': [[p, 'f64', len(v)]], 'nchunks': 1, 'data': {p: [v.tobytes()]}}
     data, _i, _l = encode_file({'segments': [seg]})
     tf = TdmsFile.read(io.BytesIO(data))
@@ -207,6 +211,8 @@ def check(case, rec):
     c = case
     kind = c['kind']
     rec.label('kind=' + kind, 'via_file' if c.get('via_file') else 'direct')
+    if c.get('via_file') and (c.get('chain') or [0])[0]:
+        rec.label('sensor_fed_by_another_scale')
     if kind == 'rtd':
         truth = list(c['T'])
         volts = [rtd_forward(c, T) for T in truth]
